@@ -243,7 +243,73 @@ def analyse(ast):
     return rd_m, rd_n, marked_idx
 
 
+# --------------------------------------------------------------------------- hand-written layouts the grammar does not produce
+
+def _tpl(lang, text, marked):
+    return {"template": {"lang": lang, "text": text, "marked": marked}}
+
+
+def template_cases():
+    """Functions sharing a line, one-line functions directly above another function's name line, markers in each of the
+    positions; `marked` lists the functions whose NAME line carries a marker."""
+    out = []
+    br = {
+        "C": ("int one(void) { return 1; } int two(void) { return 2; }", "int {n}(void) {{ return 1; }}", "int {n}(void) {{"),
+        "C++": ("int one() { return 1; } int two() { return 2; }", "int {n}() {{ return 1; }}", "int {n}() {{"),
+        "JavaScript": ("function one() { return 1; } function two() { return 2; }", "function {n}() {{ return 1; }}", "function {n}() {{"),
+        "TypeScript": ("function one(): number { return 1; } function two(): number { return 2; }", "function {n}(): number {{ return 1; }}", "function {n}(): number {{"),
+    }
+    for lang, (pair_line, one_liner, opener) in br.items():
+        body = "  return 3;\n}\n"
+        for mk in ("// nocl", "/* nocl */", "// NOCL reason"):
+            # two functions on one line, a marker on an unrelated third function
+            out.append(_tpl(lang, f"{pair_line}\n{opener.format(n='three')} {mk}\n{body}", ["three"]))
+            out.append(_tpl(lang, f"{opener.format(n='three')} {mk}\n{body}{pair_line}\n", ["three"]))
+            # a marked one-line function directly above the next function's name line
+            out.append(_tpl(lang, f"{one_liner.format(n='a')} {mk}\n{opener.format(n='b')}\n{body}", ["a"]))
+            out.append(_tpl(lang, f"{one_liner.format(n='a')} {mk}\n{one_liner.format(n='b')}\n{opener.format(n='c')}\n{body}", ["a"]))
+            # marker on the pair line itself removes exactly the two functions named on that line
+            out.append(_tpl(lang, f"{pair_line} {mk}\n{opener.format(n='three')}\n{body}", ["one", "two"]))
+    for lang, wrap_open in (("Java", "class A {\n"), ("C#", "class A {\n")):
+        for mk in ("// nocl", "/* nocl */"):
+            out.append(_tpl(lang, f"{wrap_open}  int getX() {{ return x; }} void setX(int v) {{ x = v; }}\n  void big() {{ {mk}\n    x = 1;\n  }}\n}}\n", ["big"]))
+            out.append(_tpl(lang, f"{wrap_open}  int a() {{ return 1; }} {mk}\n  int b() {{\n    return 2;\n  }}\n}}\n", ["a"]))
+            out.append(_tpl(lang, f"{wrap_open}  int a() {{ return 1; }} {mk}\n  int b() {{ return 2; }}\n  int c() {{ return 3; }} {mk}\n  int d() {{\n    return 4;\n  }}\n}}\n", ["a", "c"]))
+    out.append(_tpl("Python", "def a(x): return x  # nocl\ndef b(y):\n    return y\n", ["a"]))
+    out.append(_tpl("Python", "def a(x): return x\ndef b(y): return y  # nocl\ndef c(z):\n    return z\n", ["b"]))
+    return out
+
+
+def run_template(t):
+    lang, text, marked = t["lang"], t["text"], set(t["marked"])
+    for tool in (tool_scan_file, tool_scan_path):
+        neutral = text.replace("nocl", "nocx").replace("NOCL", "NOCX")
+        r = call_sut(tool, lang, neutral)
+        if r[0] == "exc":
+            return (f"{lang}:{r[1]}", r[2])
+        base = r[1]
+        r = call_sut(tool, lang, text)
+        if r[0] == "exc":
+            return (f"{lang}:{r[1]}", r[2])
+        got = r[1]
+        if not marked <= {m[0] for m in base}:
+            return None  # the neutral program is not analysed as written (C01's subject)
+        want = [m for m in base if m[0] not in marked]
+        if got != want:
+            still = [g[0] for g in got if g[0] in marked]
+            kind = "marked-not-suppressed" if still else "unmarked-suppressed" if len(got) < len(want) else "neighbour-changed"
+            return (f"{lang}:template:{kind}", f"marked {sorted(marked)}: result {got}\nexpected (neutral minus marked) {want}\n--- program:\n{text}")
+    return None
+
+
+def templates(col):
+    for c in template_cases():
+        col.eval(c, nontrivial=True, labels=["template:shared-lines-and-adjacent-one-liners", f"lang:{c['template']['lang']}"])
+
+
 def run_case(case):
+    if "template" in case:
+        return run_template(case["template"])
     ast = case["ast"]
     lang = ast["lang"]
     rd_m, rd_n, marked_idx = analyse(ast)
@@ -298,6 +364,8 @@ def run_case(case):
 
 
 def shrink_candidates(case):
+    if "template" in case:
+        return
     ast = case["ast"]
     for a in P.shrink_ast(ast):
         yield dict(case, ast=a)
@@ -343,4 +411,5 @@ def plan(tier, seed):
     for lang in P.LANGS:
         for k in range(2 if quick else 4):
             jobs.append(("gen", {"seed": shard_seed(seed, ID, f"{lang}{k}"), "n": per_lang // (2 if quick else 4), "lang": lang, "sizes": sizes}))
+    jobs.append(("templates", {}))
     return jobs
